@@ -23,7 +23,13 @@ tie (T-acc + T-diff), every run:
       items) into the module table and modules_ok / sharing_ok are evaluated INSIDE Coq on it;
   (b) every instance is also translated ALONE and its body compared (by Coq, on interned body ids) with the shared definition;
   (c) the observed module name of every instance is compared (inside Coq) with unique_name applied to the harness's own rendering
-      of the parameters and the harness's own blake2b digests.
+      of the parameters and the harness's own blake2b digests;
+  (d) hierarchies contain component lists (also nested lists) whose elements are built with DIFFERENT arguments; (b) is applied to
+      every element with the module name ACTUALLY instantiated for it in the parent's text (whatever its own name is), and a
+      module that is emitted but instantiated nowhere is reported;
+  (e) every IEEE 1800-2017 keyword is used as port / wire / instance / update-block name of a small design: the design is
+      rejected by the translator or its table must pass idents_legal_b in Coq.  The 27 keywords pymtl3's table never had are a
+      fixed list in this file (not read from the implementation).
 NOT proof — differential testing only: "Translating the same design any number of times, in fresh processes with different hash
   seeds, produces byte-identical text" is checked by byte-comparing the output of fresh subprocesses under 4 PYTHONHASHSEEDs
   (+ the in-process run under seed 0, + a second translation in the same process).  CPython's hashing / allocation is not modelled.
@@ -318,6 +324,34 @@ T_POOL = ['Bits8', 'Bits4', 'mk_bits(13)', 'Pt', 'Outer', 'Bits1']
 TAG_CLEAN = ["'t'", "'u'", "'hello world'", "'a.b'", "'x[0]'", "'<q>'", "'abcdefghijklmnopqrstuvwxyzabcdefghijklmnopqrstuvwxyz0123456789'", "(1, 2)", "[1, 2]", "1.5", "True"]
 OPT_CLEAN = ['None', '0', '7', "'o'", 'Bits8', 'Pt']
 
+KW_SRC = '''
+from pymtl3 import *
+class KwLeaf( Component ):
+  def construct( s ):
+    s.in_ = InPort( 8 ); s.out = OutPort( 8 )
+    s.out //= s.in_
+class KwPort( Component ):
+  def construct( s, kw ):
+    s.out = OutPort( 8 ); setattr( s, kw, InPort( 8 ) )
+    connect( s.out, getattr( s, kw ) )
+class KwWire( Component ):
+  def construct( s, kw ):
+    s.in_ = InPort( 8 ); s.out = OutPort( 8 ); setattr( s, kw, Wire( 8 ) )
+    connect( getattr( s, kw ), s.in_ ); connect( s.out, getattr( s, kw ) )
+class KwInst( Component ):
+  def construct( s, kw ):
+    s.in_ = InPort( 8 ); s.out = OutPort( 8 ); setattr( s, kw, KwLeaf() )
+    connect( getattr( s, kw ).in_, s.in_ ); connect( s.out, getattr( s, kw ).out )
+'''
+KW_BLK = '''
+class KwBlk_{kw}( Component ):
+  def construct( s ):
+    s.in_ = InPort( 8 ); s.out = OutPort( 8 )
+    @update
+    def {kw}():
+      s.out @= s.in_
+'''
+
 class HGen:
   """a hierarchy of container classes Box0..BoxK (BoxK instantiates leaves, parametrised classes and earlier boxes)"""
   def __init__(s, rng, name, dirty):
@@ -374,6 +408,20 @@ class HGen:
       L.append(f's.{cn} = {e}')
       kids.append((cn, kind, 0, e))
     outs, drv = [], []
+    for c in range(r.choice([0, 0, 1, 1, 2])):
+      # a list of components of ONE class whose elements are built with DIFFERENT arguments (same interface), also nested lists
+      s.features.add('array-varying-params')
+      k, b, cn = r.randrange(2, 4), r.randrange(0, 3), f'va{c}'
+      form = r.randrange(6 if earlier else 5)
+      if form == 0: e = f'[ Off( 8, i+{b} ) for i in range({k}) ]'
+      elif form == 1: e = f'[ Wide( a0=i, a9={b} ) for i in range({k}) ]'
+      elif form == 2: e = f"[ Sel( [ 'add', 'sub' ][ i%2 ], 't' ) for i in range({k}) ]"
+      elif form == 3: e = f'[ Par( Bits8, i+1 ) for i in range({k}) ]'
+      elif form == 4: e = f'[ [ Off( 8, i+2*j+{b} ) for i in range(2) ] for j in range({k}) ]'; s.features.add('nested-list')
+      else: e = f'[ {r.choice(earlier)}( i ) for i in range({k}) ]'; s.features.add('nested')
+      L.append(f's.{cn} = {e}')
+      for ref in ([f's.{cn}[{i}]' for i in range(k)] if form != 4 else [f's.{cn}[{j}][{i}]' for j in range(k) for i in range(2)]):
+        L.append(f'{ref}.in_ //= s.in_'); outs.append(f'{ref}.out')
     for cn, kind, k, e in kids:
       eight = kind in ('leaf', 'wide', 'off', 'sel', 'box') and '( 4 )' not in e
       refs = [f's.{cn}'] if not k else [f's.{cn}[{i}]' for i in range(k)]
@@ -391,7 +439,8 @@ class HGen:
           L.append(f'{ref}.in_ //= s.in_'); outs.append(f'{ref}.out')
     if drv: L += ['@update', 'def up_drv():'] + ['  ' + d for d in drv]
     L.append('s.w0 = Wire( 8 ); s.w1 = Wire( 8 )')
-    acc = ' ^ '.join(outs[:4]) if outs else 's.in_'
+    r.shuffle(outs)
+    acc = ' ^ '.join(outs[:5]) if outs else 's.in_'
     L += ['@update', 'def up_w0():', f'  s.w0 @= {acc}', '@update', 'def up_out():', '  t = s.w0 + k', '  s.w1 @= t', '  s.out @= s.w1 + 1']
     if s.dirty:
       plain = [cn for cn, kind, k, e in kids if not k]
@@ -446,6 +495,10 @@ def directed(auxmod):
   add('D_same_name_closure', 'same-name-diff-body', ['s.a = fac_k( 3 )( 8 ); s.b = fac_k( 5 )( 8 )'] + conn('a', 'b'))
   add('D_same_name_ports', 'same-name-diff-body', ['s.a = LeafShared( 8 ); s.b = fac_port()( 8 )'] + conn('a', 'b'))
   add('D_same_name_same_body', 'share', ['s.a = fac_add()( 8 ); s.b = fac_add()( 8 ); s.c = LeafShared( 8 ); s.d = [ LeafShared( 8 ) for _ in range(3) ]'] + conn('a', 'b', 'c'))
+  add('D_array_varying_params', 'array-varying-params', ['s.a = [ Off( 8, i+1 ) for i in range(3) ]; s.b = [ Wide( a0=i ) for i in range(2) ]; s.c = [ Par( Bits8, 3-i ) for i in range(3) ]'] +
+      [f's.{c}[{i}].in_ //= s.in_' for c, n in (('a', 3), ('b', 2), ('c', 3)) for i in range(n)])
+  add('D_array_nested_varying', 'array-varying-params', ['s.a = [ [ Off( 8, i+2*j ) for i in range(2) ] for j in range(2) ]; s.b = [ [ LeafShared( 8 ) for i in range(2) ] for j in range(2) ]'] +
+      [f's.{c}[{j}][{i}].in_ //= s.in_' for c in 'ab' for j in range(2) for i in range(2)])
   add('D_params_ints', 'int-params', ['s.a = LeafShared( 8 ); s.b = LeafShared( 4 ); s.c = LeafShared( 16 ); s.d = Off( 8, 1 ); s.e = Off( 8, 2 ); s.f = Off( 4, 1 )'])
   def drive(lines, specs):
     out = list(lines)
@@ -656,10 +709,14 @@ def run(ctx):
         alone_cache_hits += 1
       amod, abody = alone[key]
       if abody is None: continue
-      if amod != cand[0]:
-        detail.append((repr(m), cand[0], amod, 'name-differs')); continue
+      # the module ACTUALLY instantiated for this instance in the parent's text must have the body the instance has alone
       insts.append((cand[0], intern(abody)))
-      detail.append((repr(m), cand[0], type(m), key, intern(abody)))
+      detail.append((repr(m), cand[0], type(m), key, intern(abody), amod))
+    # ---- every emitted module other than the top must be instantiated somewhere (an orphan means an instance was bound elsewhere)
+    usedmods = {a for m in tbl['mods'] for a, _ in m['insts']} | {topmod}
+    orphans = sorted(m['name'] for m in tbl['mods'] if m['name'] not in usedmods)
+    if orphans:
+      ctx.violation('C13:module-never-instantiated', f'design {name}: module(s) {orphans} are emitted but no instance uses them', {'design_source': src, 'top': name, 'modules': orphans})
     k = len(tab_defs)
     tab_defs.append(f'Definition t{k} : table := {table_term(tbl, intern)}.\nDefinition i{k} : list inst := {coq_list([f"({cstr(a)}, {b})" for a, b in insts])}.')
     for cj in range(6): acc_cases.append(f'({cj}%nat, (t{k}, i{k}))')
@@ -668,7 +725,7 @@ def run(ctx):
     # ---- same class + same arguments must share one definition
     byarg = {}
     for d in detail:
-      if len(d) == 5: byarg.setdefault(d[3], set()).add(d[1])
+      byarg.setdefault(d[3], set()).add(d[1])
     for key, names in byarg.items():
       if len(names) > 1:
         ctx.violation('C13:same-class-same-params-not-shared', f'design {name}: instances of one class with equal arguments got different module names {sorted(names)}',
@@ -690,6 +747,48 @@ def run(ctx):
       name_meta.append((name, repr(m), type(m).__name__, ps, obs, src))
       proviso_cases.append(f'({cstr(type(m).__name__)}, {pterm})')
       ctx.count((type(m).__name__, tuple(ps)), True, cls='name-case')
+  # ---------------- reserved-word sweep: EVERY IEEE 1800-2017 keyword as port / wire / instance / update-block name.
+  # Each small design must be rejected by the translator, or its table must pass idents_legal_b (decided in Coq below).
+  import keyword as pykw
+  kws = sorted(SV2017)
+  ksrc = KW_SRC + ''.join(KW_BLK.format(kw=kw) for kw in kws if not pykw.iskeyword(kw))
+  kmodname = None
+  sweep = {'rejected': 0, 'emitted': 0}
+  try:
+    KwPort, kmod = sc.load_source(ctx, ksrc, 'KwPort')
+    for kw in kws:
+      for role in ('port', 'wire', 'inst', 'block'):
+        if role == 'block':
+          if pykw.iskeyword(kw): continue          # not writable as `def <kw>()`
+          mk = getattr(kmod, f'KwBlk_{kw}')
+        else:
+          if role == 'inst' and pykw.iskeyword(kw): continue          # the translator eval()s `m.<name>`: a Python keyword cannot get that far
+          C = getattr(kmod, {'port': 'KwPort', 'wire': 'KwWire', 'inst': 'KwInst'}[role]); mk = (lambda C=C, kw=kw: C(kw))
+        dn = f'KW_{role}_{kw}'
+        feats = {'kw-sweep', 'reserved-inst' if role == 'inst' else ('sv2009-kw' if kw in LACKING_2009 else 'kw-must-be-rejected')}
+        try:
+          txt, topmod = translate_obj(mk())
+        except Exception as e:
+          sweep['rejected'] += 1; ctx.count((dn, 'rejected'), True, cls='kw-sweep:rejected')
+          why = 'reserved-keyword-error' if 'reserved keyword' in str(e) else type(e).__name__
+          sweep['rejected:' + why] = sweep.get('rejected:' + why, 0) + 1
+          if why != 'reserved-keyword-error': ctx.note(f'keyword sweep {dn}: rejected for another reason: {type(e).__name__}: {str(e)[:120]}')
+          continue
+        sweep['emitted'] += 1
+        ctx.count((dn, 'emitted'), True, cls='kw-sweep:translated')
+        try:
+          tbl = parse_sv(txt)
+        except ParseError as e:
+          ctx.violation(f'C13:unparsable-output:kw-sweep', f'keyword {kw!r} as {role} name: emitted file could not be parsed: {e}', {'design_source': ksrc[:3000], 'top': dn, 'keyword': kw, 'role': role, 'output': txt[-2000:]})
+          continue
+        k = len(tab_defs)
+        tab_defs.append(f'Definition t{k} : table := {table_term(tbl, intern)}.\nDefinition i{k} : list inst := [].')
+        for cj in range(6): acc_cases.append(f'({cj}%nat, (t{k}, i{k}))')
+        one = KW_SRC + (KW_BLK.format(kw=kw) if role == 'block' else '') + f'\n# reserved word {kw!r} used as {role} name\ndef {dn}(): return ' + (f'KwBlk_{kw}()' if role == 'block' else f"{C.__name__}( {kw!r} )") + '\n'
+        acc_meta.append((dn, one, feats, tbl, [], txt, 'kw-sweep'))
+  except Exception as e:
+    ctx.violation('C13:harness-crash', f'reserved-word sweep could not run: {e!r}', {'traceback': traceback.format_exc()}, found_input=False)
+  ctx.extra['keyword_sweep'] = dict(sweep, keywords=len(kws), roles=['port', 'wire', 'inst', 'block'])
   ctx.extra.update({'designs_generated': len(designs), 'designs_translated': ntrans, 'designs_rejected_by_translator': nrej})
   if ntrans < 0.7 * len(designs):
     ctx.violation('C13:harness-crash', f'only {ntrans} of {len(designs)} generated designs were translated: no correspondence', {'notes': ctx.notes[:10]}, found_input=False)
@@ -709,10 +808,9 @@ Definition conj (c : nat * (table * list inst)) : bool :=
   bykind = {}
   for di in rejected_designs: bykind[acc_meta[di][6]] = bykind.get(acc_meta[di][6], 0) + 1
   ctx.extra['tables_rejected_by_kind'] = bykind
-  ctx.extra['tables_accepted_by_kind'] = {k: sum(1 for m in acc_meta if m[6] == k) - bykind.get(k, 0) for k in ('directed', 'random-clean', 'random-dirty')}
+  ctx.extra['tables_accepted_by_kind'] = {k: sum(1 for m in acc_meta if m[6] == k) - bykind.get(k, 0) for k in ('directed', 'random-clean', 'random-dirty', 'kw-sweep')}
   ctx.extra['tables_checked_in_coq'] = len(acc_meta)
   ctx.extra['tables_rejected_by_modules_ok_or_sharing_ok'] = len(rejected_designs)
-  reserved_pymtl = set(verilog_keyword)
   for di in rejected_designs:
     name, src, feats, tbl, detail, txt, kind = acc_meta[di]
     failed = [c for c in range(5) if di * 6 + c in bad]
@@ -734,8 +832,11 @@ Definition conj (c : nat * (table * list inst)) : bool :=
           ctx.violation(vkey(f'C13:illegal-{cat}:shape', feats), f'design {name}: {cat} {nm!r} is not a legal SystemVerilog identifier', dict(rep, identifier=nm, category=cat))
         elif nm in SV2017:
           found = True
-          why = 'reserved' if nm in reserved_pymtl else 'reserved-since-1800-2009'
-          ctx.violation(vkey(f'C13:illegal-{cat}:{why}', feats), f'design {name}: {cat} {nm!r} is a SystemVerilog reserved word ({why}) but was emitted as an identifier', dict(rep, identifier=nm, category=cat))
+          why = 'reserved-since-1800-2009' if nm in LACKING_2009 else 'reserved'
+          if cat == 'instance': key_ = vkey('C13:illegal-instance:reserved', feats)                       # sub-component names are never checked
+          elif nm in LACKING_2009: key_ = vkey('C13:illegal-signal:reserved-since-1800-2009', feats)     # keywords pymtl3's table never had
+          else: key_ = f'C13:illegal-{cat}:reserved:{nm}'                                                # a keyword pymtl3 is meant to reject
+          ctx.violation(key_, f'design {name}: {cat} {nm!r} is a SystemVerilog reserved word ({why}) but was emitted as an identifier', dict(rep, identifier=nm, category=cat))
     if 3 in failed:
       for m in tbl['mods']:
         for nm, pair in classify_scope(m):
@@ -749,11 +850,15 @@ Definition conj (c : nat * (table * list inst)) : bool :=
     if 4 in failed:
       bodies = {m['name']: intern(m['body']) for m in reversed(tbl['mods'])}
       for d in detail:
-        if len(d) != 5: continue
-        path, mn, cls_, key, b = d
-        if bodies.get(mn) != b:
+        path, mn, cls_, key, b, amod = d
+        if bodies.get(mn) != b and amod != mn:
           found = True
-          others = {id(x[2]) for x in detail if len(x) == 5 and x[1] == mn}
+          ctx.violation('C13:instance-bound-to-other-module', f'design {name}: instance {path} is instantiated as module {mn!r} in its parent, but translated alone it is module {amod!r} '
+                        f'and its body differs from the definition of {mn!r}: the instance gets the hardware of a differently parametrised component',
+                        dict(rep, instance=path, module=mn, own_module=amod))
+        elif bodies.get(mn) != b:
+          found = True
+          others = {id(x[2]) for x in detail if x[1] == mn}
           key_ = 'C13:same-classname-different-body' if len(others) > 1 else 'C13:same-class-colliding-params-different-body'
           ctx.violation(vkey(key_, feats), f'design {name}: instance {path} is given module {mn!r}, but translated alone its body differs from the definition emitted '
                         f'under that name ({"distinct classes with the same __name__ and parameters" if len(others) > 1 else "one class, different arguments rendering to the same name"}): the instance silently gets another component\'s hardware',
@@ -761,8 +866,8 @@ Definition conj (c : nat * (table * list inst)) : bool :=
     if not found:
       ctx.violation(f'C13:acceptor-reject:{"+".join(map(str, failed))}', f'design {name}: Coq acceptor rejects the module table (conjuncts {rep["failed_conjuncts"]}) but the harness diagnosis found no offender',
                     dict(rep, output=txt[-2500:]))
-  for d in [x for meta in acc_meta for x in meta[4] if len(x) == 4]:
-    ctx.note(f'instance {d[0]}: module name in hierarchy {d[1]!r} != name when translated alone {d[2]!r}')
+  for d in [x for meta in acc_meta for x in meta[4] if x[5] != x[1]][:20]:
+    ctx.note(f'instance {d[0]}: module name in hierarchy {d[1]!r} != name when translated alone {d[5]!r} (bodies are compared all the same)')
   if acc_meta:
     nm, src, feats, tbl, detail, txt, kind = acc_meta[min(4, len(acc_meta) - 1)]
     ctx.sample({'design': nm, 'features': sorted(feats), 'modules': [(m['name'], [a for a, _ in m['insts']], [d for d, _ in m['decls']][:14]) for m in tbl['mods']][:8],
@@ -788,7 +893,7 @@ Definition conj (c : nat * (table * list inst)) : bool :=
     ctx.sample({'name_case': name_meta[len(name_meta) // 2][2:5]})
   # pymtl3's keyword list must be part of the list the acceptor uses
   missing = sorted(set(verilog_keyword) - SV2017)
-  if missing: ctx.note(f'keywords in pymtl3 verilog_keyword but not in the model list: {missing}')
+  if missing: ctx.note(f'entries of pymtl3 verilog_keyword that are not IEEE 1800-2017 keywords: {missing}')
   ctx.extra['reserved_words_in_model_but_not_in_pymtl3'] = sorted(SV2017 - set(verilog_keyword))
 
   # ---------------- determinism: fresh processes, 4 hash seeds (differential, NOT proof)
@@ -837,6 +942,11 @@ Definition conj (c : nat * (table * list inst)) : bool :=
                              'everything else is decided by Coq-evaluated certified acceptors on the real output')
   ctx.extra['alone_translations_cached'] = alone_cache_hits
   ctx.extra['finding_keys_this_run'] = sorted([v[0] for v in ctx.violations] + [h[0] for h in ctx.known_hits])
+
+# the 27 IEEE 1800-2009/2012/2017 keywords that pymtl3's verilog_keyword table never contained (fixed here, NOT read from the
+# implementation: a keyword that drops out of the implementation's table must not be classified as 'never there')
+LACKING_2009 = set('''accept_on checker endchecker eventually global implements implies interconnect let nettype nexttime reject_on restrict
+s_always s_eventually s_nexttime s_until s_until_with soft strong sync_accept_on sync_reject_on unique0 until until_with untyped weak'''.split())
 
 SV2017 = set('''accept_on alias always always_comb always_ff always_latch and assert assign assume automatic before begin bind bins binsof bit
 break buf bufif0 bufif1 byte case casex casez cell chandle checker class clocking cmos config const constraint context continue cover
